@@ -5,7 +5,7 @@ harness("h_c03", ["harness/h_c03.cc"], libs=("csg",))
 
 PROPS["C03"] = dict(
     parts=[rc("h_c03", quick=dict(cases=16000, procs=8, budget_s=600),
-              thorough=dict(cases=600000, procs=16, budget_s=1500))],
+              thorough=dict(cases=300000, procs=16, budget_s=3000))],
     rule=("Configuration = box (45% orthorhombic / 55% GROMACS-reduced triclinic incl. off-diagonals at +-edge/2, edge ratio <= 3, type "
           "auto-detected or explicit) + cutoff strictly inside (0, h_min/2): either (h_min/2)*k/64 with k chosen for 2, 3 or >=4 cells along "
           "the shortest height, or height_dir/N (N in 2..8) shifted by -2..+2 ulp (cell count computation on an integer boundary), capped at "
